@@ -228,8 +228,10 @@ type exec struct {
 	laneSeq map[int]int // lane -> id of the last call started there
 }
 
+var currentScript []string
+
 func harnessFail(err error) {
-	fmt.Fprintln(os.Stderr, "harness error:", err)
+	fmt.Fprintln(os.Stderr, "harness error while running script", currentScript, ":", err)
 	os.Exit(2)
 }
 
@@ -591,6 +593,7 @@ func parseNat(s string) (int, bool) {
 }
 
 func runScript(lines []string) ([]string, map[string]string) {
+	currentScript = lines
 	var e *exec
 	hits := map[string]string{}
 	merge := func() {
@@ -919,11 +922,11 @@ func spec() corr.Spec {
 		Count: func(tier string) int {
 			switch tier {
 			case "quick":
-				return 1600
+				return 4000
 			case "thorough":
-				return 24000
+				return 60000
 			}
-			return 40000
+			return 60000
 		},
 		Shards: func(tier string) int {
 			if tier == "quick" {
